@@ -64,6 +64,11 @@ CHECKS = {
         note="Order of events inside one batch call is not compared (DESIGN 4.7).",
         technique=SIM + "; per-entity event/model-difference oracle",
         ref="DESIGN.md section 5, C11"),
+    "C12": dict(
+        text="A generated history is executed in lock-step on a world with a recorder subscribed to everything and on 1-3 worlds whose listener is restricted to event types S (all 64 masks walked across cases) and components C (none / empty / subset), implemented by the harness or by listener.Callback, or is a listener.Dispatch of such sub-listeners with more added mid-history; per operation every restricted listener must have received exactly the subsequence of the full stream selected by the documented rule (re-implemented over plain sets), with identical content and order.",
+        note="Assumes the lock-step worlds issue the same events in the same order (identical histories on fresh worlds; that assumption is C13's subject). Sub-listeners do not change their subscriptions after being added (documented requirement).",
+        technique=SIM + "; differential restricted listener / Dispatch sub-listener vs. rule-filtered full stream on lock-step worlds",
+        ref="DESIGN.md section 5, C12"),
     "C13": dict(
         text="Metamorphic check: a generated history is executed on a fresh world while a trace is recorded per operation (returned handles, counts, iteration order of scripted queries, of Query(All()) and of every registered filter, event sequence with content, DumpEntities, digest of the hidden state); the same operations are then executed on a second fresh world with frequent and forced garbage collections, and the traces must be identical step by step. In addition the same seed is run in 2 (quick) / 3 (thorough) separate OS processes and the digests of all traces are compared.",
         note="'Every process' is sampled by a handful of processes; GC timing is perturbed, not enumerated.",
